@@ -204,6 +204,20 @@ func fromStrconv(v ssa.Value, seen map[ssa.Value]bool) bool {
 				return true
 			}
 		}
+		// a helper of the module that returns a parsed integer
+		if callee := x.Call.StaticCallee(); callee != nil && callee.Blocks != nil && callee.Pkg != nil && strings.HasPrefix(callee.Pkg.Pkg.Path(), core.Module) && len(seen) < 100 {
+			found := false
+			core.EachInstr(callee, func(ins ssa.Instruction) {
+				if ret, ok := ins.(*ssa.Return); ok && !found {
+					for _, rv := range ret.Results {
+						if b, ok := rv.Type().Underlying().(*types.Basic); ok && b.Info()&types.IsInteger != 0 && fromStrconv(rv, seen) {
+							found = true
+						}
+					}
+				}
+			})
+			return found
+		}
 	}
 	return false
 }
